@@ -38,4 +38,13 @@ theorem shared_stores_keyed_by_thread :
 theorem futures_fresh_per_search :
     futuresFreshPerSearch = true ∧ hyperClassMutables = [] ∧ futuresForeignUses = [] := by decide
 
+/-- **iface_key_is_full_tuple** — the premise `KeySeparates` of `iface_path_isolation`
+    (Props/C16Iface.lean), read off interface.py: the key of `_PATH_CACHE` is the tuple returned by
+    `hash_contraction`, which contains `inputs` and `output` as they are, the items of `size_dict`
+    and `optimize`, and is not passed through `hash`; `dict` lookups compare full keys. -/
+theorem iface_key_is_full_tuple :
+    ifaceKeyReturnsTuple = true ∧ ifaceKeyCallsHash = false ∧ ifaceCacheKeyedByIt = true ∧
+      (∀ n ∈ ["inputs", "output", "size_dict", "optimize"], n ∈ ifaceKeyNames) ∧
+      (∀ n ∈ ["inputs", "output"], n ∈ ifaceKeyBare) := by decide
+
 end Cotengra.C16
